@@ -6,6 +6,7 @@ use std::cell::Cell;
 
 pub const BIG: usize = 16 << 20;
 pub const WATCH_SLOTS: usize = 32;
+pub const TRACK_SLOTS: usize = 4096;
 
 #[derive(Clone, Copy)]
 pub struct WatchEvent {
@@ -24,6 +25,11 @@ struct Tl {
     watch: Cell<[usize; WATCH_SLOTS]>,
     ev_n: Cell<usize>,
     ev: Cell<[WatchEvent; WATCH_SLOTS]>,
+    /// live-block tracking for a region (C20: blocks allocated during an operation and still live after it)
+    track_on: Cell<bool>,
+    track_n: Cell<usize>,
+    track_overflow: Cell<bool>,
+    track: std::cell::UnsafeCell<[(usize, usize); TRACK_SLOTS]>,
 }
 
 thread_local! {
@@ -32,6 +38,7 @@ thread_local! {
         allocs: Cell::new(0),
         watch_n: Cell::new(0), watch: Cell::new([0; WATCH_SLOTS]),
         ev_n: Cell::new(0), ev: Cell::new([WatchEvent{addr:0, bytes:[0;32]}; WATCH_SLOTS]),
+        track_on: Cell::new(false), track_n: Cell::new(0), track_overflow: Cell::new(false), track: std::cell::UnsafeCell::new([(0, 0); TRACK_SLOTS]),
     } };
 }
 
@@ -42,6 +49,7 @@ unsafe impl GlobalAlloc for Mon {
         let p = System.alloc(l);
         if !p.is_null() {
             on_alloc(l.size());
+            on_track_alloc(p as usize, l.size());
         }
         p
     }
@@ -49,25 +57,78 @@ unsafe impl GlobalAlloc for Mon {
         let p = System.alloc_zeroed(l);
         if !p.is_null() {
             on_alloc(l.size());
+            on_track_alloc(p as usize, l.size());
         }
         p
     }
     unsafe fn dealloc(&self, p: *mut u8, l: Layout) {
         on_dealloc(p as usize, l.size());
+        on_track_dealloc(p as usize);
         System.dealloc(p, l)
     }
     unsafe fn realloc(&self, p: *mut u8, l: Layout, new_size: usize) -> *mut u8 {
         // treat as dealloc(old) + alloc(new) for accounting and for the watch list (the old
         // block may be released by the system allocator)
         on_dealloc(p as usize, l.size());
+        on_track_dealloc(p as usize);
         let q = System.realloc(p, l, new_size);
         if !q.is_null() {
             on_alloc(new_size);
+            on_track_alloc(q as usize, new_size);
         } else {
             on_alloc(l.size());
+            on_track_alloc(p as usize, l.size());
         }
         q
     }
+}
+
+fn on_track_alloc(addr: usize, size: usize) {
+    let _ = TL.try_with(|t| {
+        if t.track_on.get() {
+            let n = t.track_n.get();
+            if n < TRACK_SLOTS {
+                unsafe {
+                    (*t.track.get())[n] = (addr, size);
+                }
+                t.track_n.set(n + 1);
+            } else {
+                t.track_overflow.set(true);
+            }
+        }
+    });
+}
+
+fn on_track_dealloc(addr: usize) {
+    let _ = TL.try_with(|t| {
+        if t.track_on.get() {
+            let n = t.track_n.get();
+            let tr = unsafe { &mut *t.track.get() };
+            for e in tr.iter_mut().take(n) {
+                if e.0 == addr {
+                    *e = (0, 0);
+                }
+            }
+        }
+    });
+}
+
+/// Run f on this thread while recording every heap block it allocates; returns f's result, the blocks allocated during f
+/// that are still live when it returns (address, size), and whether the table overflowed (then the list is incomplete).
+pub fn tracked<T>(f: impl FnOnce() -> T) -> (T, Vec<(usize, usize)>, bool) {
+    TL.with(|t| {
+        t.track_n.set(0);
+        t.track_overflow.set(false);
+        t.track_on.set(true);
+    });
+    let r = f();
+    TL.with(|t| {
+        t.track_on.set(false);
+        let n = t.track_n.get();
+        let tr = unsafe { &*t.track.get() };
+        let live: Vec<(usize, usize)> = tr.iter().take(n).filter(|e| e.0 != 0).cloned().collect();
+        (r, live, t.track_overflow.get())
+    })
 }
 
 fn on_alloc(size: usize) {
